@@ -807,3 +807,74 @@ func safeEval(goal *term.Term, m *term.Model) (ok bool, err string) {
 	v, _ := term.Eval(goal, m)
 	return v != 0, ""
 }
+
+// GlobalWriteScan lists, syntactically, every instruction in a function of the repository (outside
+// package initialisers) that stores through an address derived from a package-level variable:
+// Store/MapUpdate and copy/append/delete/clear calls whose destination traces back - through
+// field/index addressing, slicing, conversions and loads - to an *ssa.Global.
+func (e *Engine) GlobalWriteScan() (hits []string, functions int) {
+	var fromGlobal func(v ssa.Value, depth int) string
+	fromGlobal = func(v ssa.Value, depth int) string {
+		if depth > 12 {
+			return ""
+		}
+		switch x := v.(type) {
+		case *ssa.Global:
+			if x.Pkg != nil && repoPkg(x.Pkg.Pkg.Path()) {
+				return x.Pkg.Pkg.Path() + "." + x.Name()
+			}
+		case *ssa.FieldAddr:
+			return fromGlobal(x.X, depth+1)
+		case *ssa.IndexAddr:
+			return fromGlobal(x.X, depth+1)
+		case *ssa.Slice:
+			return fromGlobal(x.X, depth+1)
+		case *ssa.ChangeType:
+			return fromGlobal(x.X, depth+1)
+		case *ssa.Convert:
+			return fromGlobal(x.X, depth+1)
+		case *ssa.UnOp:
+			return fromGlobal(x.X, depth+1) // value loaded from a global (pointer, slice or map kept there)
+		case *ssa.Phi:
+			for _, ed := range x.Edges {
+				if g := fromGlobal(ed, depth+1); g != "" {
+					return g
+				}
+			}
+		}
+		return ""
+	}
+	for fn := range ssautil.AllFunctions(e.prog) {
+		if fn.Pkg == nil || !repoPkg(fn.Pkg.Pkg.Path()) || fn.Name() == "init" || strings.HasPrefix(fn.Name(), "init#") {
+			continue
+		}
+		functions++
+		for _, b := range fn.Blocks {
+			for _, in := range b.Instrs {
+				var target ssa.Value
+				what := ""
+				switch x := in.(type) {
+				case *ssa.Store:
+					target, what = x.Addr, "store"
+				case *ssa.MapUpdate:
+					target, what = x.Map, "map update"
+				case *ssa.Call:
+					if bi, ok := x.Common().Value.(*ssa.Builtin); ok {
+						switch bi.Name() {
+						case "copy", "delete", "clear":
+							target, what = x.Common().Args[0], bi.Name()
+						}
+					}
+				}
+				if target == nil {
+					continue
+				}
+				if g := fromGlobal(target, 0); g != "" {
+					hits = append(hits, fmt.Sprintf("%s: %s into %s at %s", fn.String(), what, g, e.pos(in)))
+				}
+			}
+		}
+	}
+	sort.Strings(hits)
+	return hits, functions
+}
